@@ -179,7 +179,7 @@ PROPS = {
         trusted_base=["pkg/template, pkg/spec (Bind/Build), pkg/value (Is) transcribed by hand into theories/Template/Template.v", COMMON_MODEL],
     ),
     "C02": dict(
-        level_text="Coq theorems about the Tracer every node owns, as a state machine over its method calls (any schedule of the forward/backward loops of all processes is a sequence of calls): for EVERY call sequence, per reader, answered requests followed by pending requests are exactly the requests read, in order (each request answered at most once, none overtaking, none lost); the reader branch answers exactly the longest prefix of the queue whose slots are recorded and completely filled, each with the join of its slots (the repaired defect: a request between Read and Link was answered with the empty packet); the answer of a derived packet is filed in exactly that packet's slot whatever the answer order, never out of range. END TO END FOR ONE NODE (refinement): a specification machine keeps for every unanswered request the row of the packets derived from it, in link order, with the answer each has received, and answers a request only when it is the oldest unanswered request of its reader and its row is non-empty and complete - with the join of the row; for EVERY call sequence that keeps the node discipline (fresh packets; a packet is linked only to unanswered requests and before it is written; all packets derived from a request are linked before the first of them is written; each derived packet written at most once; a request without derived packets answered directly; a packet may be derived from several requests) the tracer hands out exactly the specification's answers (same requests, readers, packets, order), holds the same pending requests and writes, and never indexes out of range; the discipline keeps the specification's invariant; and EVERY interleaving of the forward loops of the three node kinds (per request: Read, then Write(nil, request) or Link for every derived packet followed by Write for every one) with one another and with Receive calls, packets being fresh, keeps the discipline - so in every schedule of the node loops the tracer hands out the specification's answers. The discipline is computable: the correspondence run checks it on every call sequence it drives through the real Tracer (one-to-one, one-to-many, many-to-one and direct answers, random interleavings) and compares the real answers with the specification's and with the tracer model's. ACROSS NODES (Node/Network.v): for an acyclic network of such specification nodes (one model node per input; links in-order as C01 gives; any number of requests in flight; node steps interleaved arbitrarily) - at every node arrived = answered ++ pending without repetition in every reachable state; every answer is the node's own result or the join of the answers the derived packets received EARLIER (so answers are the schedule-independent recursive evaluation over the derivation tree); a network with anything pending can move (acyclicity), so a network that cannot move has answered everything exactly once and in order. PARTIAL: that real nodes joined by real ports form such a network is argued per component (tracer refines specification, loops keep the discipline, C01 for the links) and compared exactly with the implementation as a whole at node level (real OneToOne/OneToMany/ManyToOne nodes in chains, fan-out, diamonds, fan-in; actions held open and released in random order; several requests pipelined in one process; every source answer checked against the reference evaluation, AND against the network model: the harness supplies the derivations of the real run in creation order and the model - per-node FIFO, row-complete rule, join - must compute exactly the answers the real source received).",
+        level_text="Coq theorems about the Tracer every node owns, as a state machine over its method calls (any schedule of the forward/backward loops of all processes is a sequence of calls): for EVERY call sequence, per reader, answered requests followed by pending requests are exactly the requests read, in order (each request answered at most once, none overtaking, none lost); the reader branch answers exactly the longest prefix of the queue whose slots are recorded and completely filled, each with the join of its slots (the repaired defect: a request between Read and Link was answered with the empty packet); the answer of a derived packet is filed in exactly that packet's slot whatever the answer order, never out of range. END TO END FOR ONE NODE (refinement): a specification machine keeps for every unanswered request the row of the packets derived from it, in link order, with the answer each has received, and answers a request only when it is the oldest unanswered request of its reader and its row is non-empty and complete - with the join of the row; for EVERY call sequence that keeps the node discipline (fresh packets; a packet is linked only to unanswered requests and before it is written; all packets derived from a request are linked before the first of them is written; each derived packet written at most once; a request without derived packets answered directly; a packet may be derived from several requests) the tracer hands out exactly the specification's answers (same requests, readers, packets, order), holds the same pending requests and writes, and never indexes out of range; the discipline keeps the specification's invariant; and EVERY interleaving of the forward loops of the three node kinds (per request: Read, then Write(nil, request) or Link for every derived packet followed by Write for every one) with one another and with Receive calls, packets being fresh, keeps the discipline - so in every schedule of the node loops the tracer hands out the specification's answers. The discipline is computable: the correspondence run checks it on every call sequence it drives through the real Tracer (one-to-one, one-to-many, many-to-one and direct answers, random interleavings) and compares the real answers with the specification's and with the tracer model's. ACROSS NODES (Node/Network.v): for an acyclic network of such specification nodes (one model node per input; links in-order as C01 gives; any number of requests in flight; node steps interleaved arbitrarily) - at every node arrived = answered ++ pending without repetition in every reachable state; every answer is the node's own result or the join of the answers the derived packets received EARLIER (so answers are the schedule-independent recursive evaluation over the derivation tree); a network with anything pending can move (acyclicity), so a network that cannot move has answered everything exactly once and in order; when all outside requests enter at node 0 the answers delivered outside are, oldest first, exactly the requests node 0 has answered - a prefix of the injected requests in injection order; with packets and packet.Join an error among the answers to the derived packets makes the request's answer an error (so an error anywhere below reaches the source); a request's action finishes once and a packet has one recorded answer. PARTIAL: that real nodes joined by real ports form such a network is argued per component (tracer refines specification, loops keep the discipline, C01 for the links) and compared exactly with the implementation as a whole at node level (real OneToOne/OneToMany/ManyToOne nodes in chains, fan-out, diamonds, fan-in; actions held open and released in random order; several requests pipelined in one process; every source answer checked against the reference evaluation, AND against the network model: the harness supplies the derivations of the real run in creation order and the model - per-node FIFO, row-complete rule, join - must compute exactly the answers the real source received).",
         level_note="Partial as stated: the workflow-level theorem is about a network of specification nodes with in-order links (C01); the identification of the real workflow with that network is per component plus the node-level oracle. Trusted: Coq kernel + vm_compute; hand transcription of tracer.go (hooks/Dispatch left out: the three node kinds do not use them); the node loops (onetoone.go, onetomany.go, manytoone.go) enter the proof as lists of tracer calls per request read off their code (Node/Loops.v); that reading is checked on every run against the call sequences recorded from the real nodes. Node-level schedules are random (seeded) but not replayable exactly: the oracle is schedule-independent except for which input completes a many-to-one group, where both outcomes are accepted.",
         technique="Coq proof (ledger invariant over all call sequences; refinement of the tracer to a request/row specification by simulation, with the invariant of the node discipline; network of specification nodes: per-node ledger, justified answers, deadlock freedom by acyclicity) + vm_compute correspondence of a real Tracer against model and specification + vm_compute correspondence of the network model against real workflows + node-level reference-evaluation oracle under random schedules",
         quick_n=300, thorough_n=6000, shard=100, mismatch_is_failure=True,
